@@ -11,29 +11,119 @@ open VC2 VC2.Model.Serdes VC2.Model.BitIO
 def CompleteAt (C : Codec) (k : Prim) : Prop :=
   ∀ bits v rest, C.dec k bits = some (v, rest) → ∃ used, C.enc k v = some used ∧ bits = used ++ rest
 
+/-- joining what is left of `u1` and what is left of `u2` -/
+theorem realOf_join (blk : Bool) (u1 u2 real mid rest : List Bool) (h1 : RealOf blk u1 real mid) (h2 : RealOf blk u2 mid rest) :
+    RealOf blk (u1 ++ u2) real rest := by
+  unfold RealOf at *
+  cases blk with
+  | false =>
+    simp only [Bool.false_eq_true, if_false] at *
+    rw [h1, h2, List.append_assoc]
+  | true =>
+    simp only [if_true] at *
+    obtain ⟨n1, hn1, hr1, ha1, hz1⟩ := h1
+    obtain ⟨n2, hn2, hr2, ha2, hz2⟩ := h2
+    by_cases hc : n1 = u1.length
+    · subst hc
+      refine ⟨u1.length + n2, by simp; omega, ?_, ?_, ?_⟩
+      · rw [hr1, hr2, List.take_length, List.take_append]
+        simp [List.take_of_length_le (Nat.le_add_right _ _), List.append_assoc]
+      · rw [List.drop_append]
+        simp [List.drop_of_length_le (Nat.le_add_right u1.length n2)]
+        simpa using ha2
+      · intro hlt; apply hz2; simp at hlt; omega
+    · have hm : mid = [] := hz1 (by omega)
+      subst hm
+      -- nothing real is left for u2: it lies past the end entirely (or is empty)
+      have hrest : rest = [] := by
+        have := congrArg List.length hr2
+        simp at this
+        exact List.eq_nil_of_length_eq_zero (by omega)
+      have hu2 : u2.all id = true := by
+        have hlen := congrArg List.length hr2
+        simp at hlen
+        have : u2.take n2 = [] := List.eq_nil_of_length_eq_zero (by simp; omega)
+        have hd : u2.drop n2 = u2 := by
+          conv => rhs; rw [← List.take_append_drop n2 u2, this]
+          rfl
+        rw [hd] at ha2; exact ha2
+      refine ⟨n1, by simp; omega, ?_, ?_, fun _ => hrest⟩
+      · rw [hr1, hrest, List.take_append]
+        have : n1 - u1.length = 0 := by omega
+        simp [this]
+      · rw [List.drop_append, all_id_append]
+        have : n1 - u1.length = 0 := by omega
+        rw [this, List.drop_zero]
+        exact ⟨ha1, hu2⟩
+
+/-- one primitive, read backwards: the code of the value read is what was there — inside a block
+    possibly cut off by the block end, the missing bits being 1s -/
+theorem decPrim_complete (C : Codec) (k : Prim) (hC : CompleteAt C k) (blk : Bool) (real : List Bool) (v : Leaf) (rest : List Bool)
+    (h : decPrim C blk k real = some (v, rest)) : ∃ used, C.enc k v = some used ∧ RealOf blk used real rest := by
+  unfold decPrim at h
+  cases blk with
+  | false =>
+    simp only [Bool.false_eq_true, if_false] at h
+    obtain ⟨used, he, hb⟩ := hC real v rest h
+    exact ⟨used, he, by unfold RealOf; simpa using hb⟩
+  | true =>
+    simp only [if_true] at h
+    cases hd : C.dec k (real ++ List.replicate (C.virt k) true) with
+    | none => rw [hd] at h; cases h
+    | some q =>
+      obtain ⟨v', rest'⟩ := q
+      rw [hd] at h; simp at h
+      obtain ⟨hv, hrest⟩ := h
+      subst hv
+      obtain ⟨used, he, hb⟩ := hC _ v' rest' hd
+      refine ⟨used, he, ?_⟩
+      unfold RealOf; simp only [if_true]
+      rcases List.append_eq_append_iff.1 hb with ⟨a', h1, h2⟩ | ⟨c', h1, h2⟩
+      · -- used = real ++ a', ones = a' ++ rest': the code runs past the end
+        have ha : a'.all id = true := by
+          have : (a' ++ rest').all id = true := by rw [← h2]; simp
+          exact ((all_id_append _ _).1 this).1
+        have hlen : rest'.length ≤ C.virt k := by
+          have := congrArg List.length h2; simp at this; omega
+        have hr : rest = [] := by
+          rw [← hrest]; simp; omega
+        by_cases ha0 : a' = []
+        · subst ha0
+          simp at h1 h2
+          refine ⟨used.length, Nat.le_refl _, ?_, by simp, fun h => absurd h (Nat.lt_irrefl _)⟩
+          rw [List.take_length, h1, hr]; simp
+        · refine ⟨real.length, by rw [h1]; simp, ?_, ?_, fun _ => hr⟩
+          · rw [h1, hr]; simp
+          · rw [h1]; simp; simpa using ha
+      · -- real = used ++ c', rest' = c' ++ ones: the code lies inside the block
+        refine ⟨used.length, Nat.le_refl _, ?_, by simp, fun h => absurd h (Nat.lt_irrefl _)⟩
+        rw [List.take_length, ← hrest, h2, h1]
+        simp
+
 /-- deserialise-then-serialise for a sequence of primitive reads (a list target, or any straight
     run of fields): the serialiser reproduces exactly the bits the deserialiser consumed -/
-theorem desPrims_ser (C : Codec) : ∀ (ks : List Prim) (bits : List Bool) (vs : List Val) (rest : List Bool),
-    (∀ k ∈ ks, CompleteAt C k) → desPrims C ks bits = some (vs, rest) →
-    ∃ used, serPrims C ks vs = some used ∧ bits = used ++ rest
+theorem desPrims_ser (C : Codec) (blk : Bool) : ∀ (ks : List Prim) (bits : List Bool) (vs : List Val) (rest : List Bool),
+    (∀ k ∈ ks, CompleteAt C k) → desPrims C blk ks bits = some (vs, rest) →
+    ∃ used, serPrims C ks vs = some used ∧ RealOf blk used bits rest
   | [], bits, vs, rest, _, h => by
-    simp [desPrims] at h; obtain ⟨h1, h2⟩ := h; subst h1 h2; exact ⟨[], rfl, rfl⟩
+    simp [desPrims] at h; obtain ⟨h1, h2⟩ := h; subst h1 h2
+    exact ⟨[], rfl, by simpa using realOf_whole blk [] bits⟩
   | k :: ks, bits, vs, rest, hc, h => by
     simp only [desPrims] at h
-    cases hd : C.dec k bits with
+    cases hd : decPrim C blk k bits with
     | none => rw [hd] at h; cases h
     | some r =>
       obtain ⟨v, r1⟩ := r
       rw [hd] at h; simp only at h
-      cases hr : desPrims C ks r1 with
+      cases hr : desPrims C blk ks r1 with
       | none => rw [hr] at h; cases h
       | some q =>
         obtain ⟨vs', rest'⟩ := q
         rw [hr] at h; simp at h
         obtain ⟨e1, e2⟩ := h; subst e1 e2
-        obtain ⟨u1, he, hb⟩ := hc k List.mem_cons_self bits v r1 hd
-        obtain ⟨u2, hs, hb2⟩ := desPrims_ser C ks r1 vs' rest' (fun x hx => hc x (List.mem_cons_of_mem _ hx)) hr
-        refine ⟨u1 ++ u2, ?_, by rw [hb, hb2, List.append_assoc]⟩
+        obtain ⟨u1, he, hb⟩ := decPrim_complete C k (hc k List.mem_cons_self) blk bits v r1 hd
+        obtain ⟨u2, hs, hb2⟩ := desPrims_ser C blk ks r1 vs' rest' (fun x hx => hc x (List.mem_cons_of_mem _ hx)) hr
+        refine ⟨u1 ++ u2, ?_, realOf_join blk u1 u2 bits r1 rest' hb hb2⟩
         simp [serPrims, he, hs]
 
 theorem readBits_spec : ∀ (n : Nat) (all : List Bool) (pos : Nat) (l : List Bool) (r' : Reader),
